@@ -258,6 +258,116 @@ theorem rel_run (n i : Nat) (ops : List Op) (hwf : HistWF ops) (s : State) (sp g
       simp only [specRun]
       exact ih hwf2 _ _ _ hstep
 
+/-! ### the other direction: without limits a server holds everything the ideal cache holds -/
+
+def RelBack (n i : Nat) (sp g : C07.Spec) : Prop :=
+  ∀ k e', shard n k = i → g k = some e' →
+    ∃ e, sp k = some e ∧ e.val = e'.val ∧ e.deadline = e'.deadline ∧ ∀ t, t ∈ e.trigs ↔ t ∈ e'.trigs
+
+/-- a server without entry limit and without size cap (`thread_cache_factory(0)`) -/
+structure Unlimited (s : State) : Prop where
+  inv : C07.Inv s
+  limit : s.limit = 0
+  cap : s.sizeLimit = none
+
+theorem unlimited_step {s : State} (h : Unlimited s) (op : C07.Op) : Unlimited (C07.step s op).1 :=
+  ⟨inv_step h.inv op, (config_step s op).1.trans h.limit, (config_step s op).2.trans h.cap⟩
+
+theorem projOp_quiet (n i : Nat) (op : Op) (o : C07.Op) (h : projOp n i op = some o) : o.quiet := by
+  cases op with
+  | fetch c a b k t => simp only [projOp] at h; split at h <;> simp at h; subst h; trivial
+  | store c nowS k v trigs d =>
+    simp only [projOp] at h
+    split at h
+    · simp only [storeOpOf] at h
+      split at h
+      · cases h
+      · cases hw : wireTrigs trigs with
+        | none => rw [hw] at h; cases h
+        | some ts => rw [hw] at h; simp at h; subst h; simp [C07.Op.quiet]
+    · cases h
+  | rise c t => simp [projOp] at h; subst h; trivial
+  | clear c => simp [projOp] at h; subst h; trivial
+  | remove c k => simp [projOp] at h
+  | stats c => simp [projOp] at h
+
+theorem relBack_step (n i : Nat) (op : Op) (hwf : HistWF [op]) (s : State) (hs : Unlimited s) (sp g : C07.Spec)
+    (h : RelBack n i sp g) :
+    RelBack n i (match projOp n i op with
+        | some o => (C07.Spec.step sp o (stamp s o)).1
+        | none => sp)
+      (Spec.ideal g (toSOp op)) := by
+  cases op with
+  | fetch c nowC nowS k t =>
+    simp only [projOp, toSOp, Spec.ideal]
+    split <;> (rename_i h1; split at h1 <;> simp at h1; try (subst h1)) <;> simpa [C07.Spec.step] using h
+  | store c nowS k v trigs d =>
+    have hw : Spec.WFwire k v trigs d := hwf (.store c nowS k v trigs d) (by simp)
+    simp only [projOp, toSOp, Spec.ideal]
+    by_cases hi : shard n k = i
+    · simp only [hi, if_true, storeOpOf_wf hw, C07.Spec.step]
+      have hst := (exact_step hs.inv hs.limit hs.cap (C07.Op.store nowS k v (sortSet trigs) d) (by simp [C07.Op.quiet])).2.2
+        nowS k v (sortSet trigs) d none {} rfl
+      rw [hst]
+      intro k' e' hk' he'
+      by_cases hk : k' = k
+      · subst hk
+        simp only [C07.Spec.insert, if_true, Option.some.injEq] at he'
+        subst he'
+        refine ⟨⟨v, ownTrigs k' (sortSet trigs), d, none.getD s.generation⟩, by simp [C07.Spec.insert], rfl, rfl, ?_⟩
+        intro t
+        simp only [mem_ownTrigs, mem_sortSet]
+      · simp only [C07.Spec.insert, hk, if_false] at he' ⊢
+        exact h k' e' hk' he'
+    · simp only [hi, if_false]
+      intro k' e' hk' he'
+      have hk : k' ≠ k := by intro hh; subst hh; exact hi hk'
+      simp only [C07.Spec.insert, hk, if_false] at he'
+      exact h k' e' hk' he'
+  | rise c t =>
+    simp only [projOp, toSOp, Spec.ideal, C07.Spec.step]
+    intro k e' hk he'
+    simp only [C07.Spec.rise] at he'
+    cases hg : g k with
+    | none => rw [hg] at he'; cases he'
+    | some e0 =>
+      rw [hg] at he'
+      simp only at he'
+      split at he'
+      · cases he'
+      · rename_i hnt
+        cases he'
+        obtain ⟨e, h1, h2, h3, h4⟩ := h k e' hk hg
+        refine ⟨e, ?_, h2, h3, h4⟩
+        simp only [C07.Spec.rise, h1]
+        rw [if_neg]
+        exact fun hh => hnt ((h4 t).mp hh)
+  | clear c =>
+    simp only [projOp, toSOp, Spec.ideal, C07.Spec.step]
+    intro k e' _ he'
+    simp [C07.Spec.empty] at he'
+  | remove c k => simpa [projOp, toSOp, Spec.ideal] using h
+  | stats c => simpa [projOp, toSOp, Spec.ideal] using h
+
+theorem relBack_run (n i : Nat) (ops : List Op) (hwf : HistWF ops) (s : State) (hs : Unlimited s) (sp g : C07.Spec)
+    (h : RelBack n i sp g) :
+    RelBack n i (specRun s sp (ops.filterMap (projOp n i))) ((ops.map toSOp).foldl Spec.ideal g) := by
+  induction ops generalizing s sp g with
+  | nil => simpa [specRun] using h
+  | cons op ops ih =>
+    have hwf1 : HistWF [op] := by intro o ho; simp at ho; subst ho; exact hwf _ (by simp)
+    have hwf2 : HistWF ops := fun o ho => hwf o (by simp [ho])
+    have hstep := relBack_step n i op hwf1 s hs sp g h
+    simp only [List.filterMap_cons, List.map_cons, List.foldl_cons]
+    cases hp : projOp n i op with
+    | none =>
+      rw [hp] at hstep
+      exact ih hwf2 s hs sp _ hstep
+    | some o =>
+      rw [hp] at hstep
+      simp only [specRun]
+      exact ih hwf2 _ (unlimited_step hs o) _ _ hstep
+
 /-- every store of the history uses a NUL-free key (needed only for the trigger *set* a fetch reports:
 the key travels back as one of the entry's trigger names) -/
 def KeysNulFree (ops : List Op) : Prop :=
